@@ -37,8 +37,17 @@ ASSUMPTIONS = [
 FALSY = 4  # ret tokens 0..3 are falsy python values
 
 
+TRICKY = [901, 902, 903, 904, 905, 906]   # names of sections nobody claims that are PARTS of what is claimed
+
+
 def sname(case, k):
-    return "logging" if k == 0 else "%s%d" % (case.get("salt", "s"), k)
+    salt = case.get("salt", "s")
+    if k in TRICKY:
+        inst = sorted("%s%d" % (salt, e["name"]) for e in case["entries"] if e["name"] != 0)
+        nm = {901: "", 902: salt, 903: ", ", 904: (inst[0][1:] if inst else "1"),
+              905: (", ".join(inst[:2]) if len(inst) >= 2 else ","), 906: (inst[-1][:-1] if inst else "s")}[k]
+        return nm + "," if (nm in inst or nm == "logging") else nm
+    return "logging" if k == 0 else "%s%d" % (salt, k)
 
 
 # ------------------------------------------------------------------ generation
@@ -85,6 +94,8 @@ def corpus():
     # required plugin missing after an earlier plugin was digested; unknown section AND missing required
     yield {"salt": "s", "entries": [E(0, 1, ret=5), E(1, 2, after=[1], required=True)], "config": [[1, 10]]}
     yield {"salt": "s", "entries": [E(0, 1, ret=5), E(1, 2, after=[1], required=True)], "config": [[1, 10], [5, 11]]}
+    for t in TRICKY:
+        yield {"salt": "sec", "entries": [E(0, 1, ret=5), E(1, 12, after=[1])], "config": [[1, 10], [t, 11], [12, 12]]}
     # extras, duplicate sections, a plugin called logging
     yield {"salt": "s", "entries": [E(0, 1), E(1, 2, extras=True)], "config": [[1, 10]]}
     yield {"salt": "s", "entries": [E(0, 1, ret=5), E(1, 1, ret=6), E(2, 2, after=[1])], "config": [[1, 10], [2, 11]]}
@@ -175,6 +186,8 @@ def gen_random(rng):
     if rng.random() < (0.08 if mode < 0.45 else 0.3):
         for _ in range(rng.choice([1, 1, 2])):
             k = rng.choice(absent + [n + 6, n + 7]) if absent else n + 6 + rng.randint(0, 1)
+            if rng.random() < 0.4:
+                k = rng.choice(TRICKY)
             if not any(k == kk for kk, _ in config):
                 config.append([k, tok])
                 tok += 1
